@@ -20,8 +20,8 @@ from spec import wgs84, frames, nav_ode
 
 MANIFEST = dict(
     category="proof",
-    technique="loop-body contract of the real numba kernel (py_func) executed symbolically: frame/purity in an uninterpreted trace domain, index bounds by executing one generic iteration of the real loop on symbolic integers (z3, all lengths), zeroth/first-order Taylor coefficients of the step map against the exact navigation ODE in a fraction field, divisors by interval arithmetic; Lax-Dahlquist theorem assumed; Richardson run-time stand-in; Every claim is also checked for call history: the real code is run twice in the same symbolic world (primed inputs first; same captured objects and module state) and the second result must still meet the contract on every path a concrete witness input takes; value-dependent branches inside a claim are explored path by path. The frame obligations (C19's analysis) of the modules under contract are re-established under this property's name.; Bounded stand-ins shared by all properties (labelled bounded, never counted as proved): the argument-form battery of the modules under contract (batches of 1 and 1200 rows, integer-typed values, labels / columns in other orders, extra labels); where the frame analysis finds state that outlives a call (a cache, a memo) the frame obligation becomes a dynamic purity contract against pristine process states; names the proofs replace by scipy contracts are checked to be bound to the library's functions (else a differential test).",
-    text="The integrator is a one-step method x_{k+1} = F(x_k, dt, theta, dv). For ALL states, rates, forces and ellipsoid constants it is proved that the kernel's loop body (the very source numba compiles) is a pure function of row j and increment i (frame, scratch written before read, indices in range for every buffer length), that F is the identity at dt=0, that dF/dt at 0 equals the right-hand side of the exact navigation equations on the rotating WGS-84 ellipsoid with normal gravity (consistency, 15 state cells, both altitude modes), and that every divisor is non-zero on |lat|<=85 deg, alt>=-500 m (F is C^1, hence locally Lipschitz). A one-step method that is consistent and Lipschitz is convergent, i.e. has no error component that survives dt->0 (Lax/Dahlquist, assumed theorem). The glue in Integrator (argument order, initial attitude, Euler extraction of the output rows) is proved with the kernel replaced by its contract. The quantitative halving inequality is only exercised by a bounded Richardson stand-in on generated motions.",
+    technique="loop-body contract of the real numba kernel (py_func) executed symbolically: frame/purity in an uninterpreted trace domain, index bounds by executing one generic iteration of the real loop on symbolic integers (z3, all lengths), zeroth/first-order Taylor coefficients of the step map against the exact navigation ODE in a fraction field, divisors by interval arithmetic; the convergence theorem's stability half mechanised in Lean (lean/Convergence.lean), consistency => truncation error by Taylor assumed; Richardson run-time stand-in; Every claim is also checked for call history: the real code is run twice in the same symbolic world (primed inputs first; same captured objects and module state) and the second result must still meet the contract on every path a concrete witness input takes; value-dependent branches inside a claim are explored path by path. The frame obligations (C19's analysis) of the modules under contract are re-established under this property's name.; Bounded stand-ins shared by all properties (labelled bounded, never counted as proved): the argument-form battery of the modules under contract (batches of 1 and 1200 rows, integer-typed values, labels / columns in other orders, extra labels); where the frame analysis finds state that outlives a call (a cache, a memo) the frame obligation becomes a dynamic purity contract against pristine process states; names the proofs replace by scipy contracts are checked to be bound to the library's functions (else a differential test).",
+    text="The integrator is a one-step method x_{k+1} = F(x_k, dt, theta, dv). For ALL states, rates, forces and ellipsoid constants it is proved that the kernel's loop body (the very source numba compiles) is a pure function of row j and increment i (frame, scratch written before read, indices in range for every buffer length), that F is the identity at dt=0, that dF/dt at 0 equals the right-hand side of the exact navigation equations on the rotating WGS-84 ellipsoid with normal gravity (consistency, 15 state cells, both altitude modes), and that every divisor is non-zero on |lat|<=85 deg, alt>=-500 m (F is C^1, hence locally Lipschitz). A one-step method that is consistent and Lipschitz is convergent, i.e. has no error component that survives dt->0: the stability half (global error <= local truncation error x (exp(L T) - 1) / L, discrete Gronwall) is proved in lean/Convergence.lean (re-checked by lean in the thorough tier); Taylor's theorem for the local truncation error and 'C^1 on a compact domain is Lipschitz' stay assumed. The glue in Integrator (argument order, initial attitude, Euler extraction of the output rows) is proved with the kernel replaced by its contract. The quantitative halving inequality is only exercised by a bounded Richardson stand-in on generated motions.",
     note="A1-A6; mat_from_rotvec and gravity are replaced by their contracts inside the kernel proof (their own obligations C17.rotvec.*, C16.gravity.compiled are re-checked in this run); theta = w dt + O(dt^2), dv = f dt + O(dt^2) is C15's postcondition; convergence theorem and the asymptotic error expansion behind the halving inequality are assumed; float rounding not modelled.",
 )
 LEVEL = "proof"
